@@ -5,7 +5,7 @@ ALL = ["C%02d" % i for i in range(1, 21)]
 CLAIMED = {
  "C16": dict(
    text="TLC model-checks the loaders' index arithmetic (DataLoaders.tla Impl) against the property (Abs: pairing, size, coverage, aggregation) for every size tuple up to the bound, and every loader configuration TLC enumerates is iterated once on the REAL PointsDataLoader / DeepONetDataLoader / DataCondition; TLC validates each recorded pass against Abs.",
-   note="Trusted: TLC, the id encoding of the tensors (cell value reveals (function, location)), float64 identity model for aggregated losses. Bounded: data-set sizes <= 7 (quick) / 9 (thorough), batch sizes <= 8 / 10 and -1. Grid-shaped data (N, 2, 1) for PointsDataLoader.",
+   note="Trusted: TLC, the id encoding of the tensors (cell value reveals (function, location)), float64 identity model for aggregated losses. Bounded: data-set sizes <= 7 (quick) / 9 (thorough), batch sizes <= 8 / 10 and -1. Grid-shaped data (N, 2, 1) for PointsDataLoader. Per-function DeepONet loaders: a second epoch after dataset.trunk_batch_size was changed.",
    technique="TLA+ Impl=>Abs model checking + TLC trace validation of exhaustively enumerated loader passes", ref="5 C16"),
  "C15": dict(
    text="TLC checks the refinement StaticImpl (the code's counter/cache machine) => StaticAbs (run lengths as the property states them) and the adaptive replacement rule => Abs for all histories up to the bound; TLC-generated call histories (exhaustive short, random long) are replayed on real sampler objects and every recorded history is validated step by step against the Abs machine by TLC; the random variant's keep frequencies are judged by TLC against a binomial acceptance region.",
@@ -17,7 +17,7 @@ CLAIMED = {
    technique="TLA+ model checking of the wrapper heap + exhaustive signature enumeration by TLC + TLC trace validation", ref="5 C13"),
  "C12": dict(
    text="PointsTable.tla defines Points/Space as a table with named column groups (get by row/column selectors, set, join, cat, repeat, unsqueeze, arithmetic, order-sensitive equality, space product/sub-space/slice); TLC checks the algebraic laws the property names over all small tables, enumerates the whole index universe on a one-axis and a two-axis table and generates random operation histories; every step is executed on real Points objects and TLC compares the recorded result (and the operands before/after) with the table semantics.",
-   note="Trusted: TLC; cell ids are distinct integers. Bounded: <= 3 variables of dims 1..2, <= 4 rows (exhaustive index universe), histories <= 10 operations on <= 9 tables, one or two batch axes. Advanced row index + column selection on two batch axes is outside the modelled universe; on one axis its zipped result is the known finding pt_zipped_index. Name slices with steps (reversed, open ends), space algebra on all ordered pairs of a pool where one name has different dimensions.",
+   note="Trusted: TLC; cell ids are distinct integers. Bounded: <= 3 variables of dims 1..2, <= 4 rows (exhaustive index universe), histories <= 10 operations on <= 9 tables, one or two batch axes. Advanced row index + column selection on two batch axes is outside the modelled universe; on one axis its zipped result is the known finding pt_zipped_index. Name slices with steps (reversed, open ends), space algebra on all ordered pairs of a pool where one name has different dimensions. from_coordinates with coordinates of different dtypes (smaller dtype first).",
    technique="TLA+ table semantics model-checked for its laws + TLC-enumerated index universe and histories + TLC trace validation", ref="5 C12"),
  "C05": dict(
    text="Geometry.tla gives every domain expression its denotation In(e, Q) in exact integer arithmetic on homogeneous lattice points (union=or, cut=and-not, product=conjunction, translate/rotate=inverse image, parameter-dependent shapes evaluated with each point's own parameter row); TLC generates the expressions (all of depth<=1 plus random deeper ones), the real _contains is queried on lattice points and TLC compares every bit that is not within tolerance of the boundary; boundary objects must accept their own boundary samples and reject far points.",
@@ -25,7 +25,7 @@ CLAIMED = {
    technique="TLA+ denotational oracle evaluated by TLC on recorded membership bits (trace validation) of TLC-generated expressions", ref="5 C05"),
  "C01": dict(
    text="Every row returned by the sampling methods of TLC-generated domain expressions (interior and boundary; domain-level random/grid with n and density; RandomUniform/Grid/Gaussian/LHS/adaptive/filtered samplers; parameter batches) is recorded with the parameter row it is paired with and TLC checks it against the denotation of Geometry.tla (closed set resp. topological boundary up to 2/256, filter satisfied); calls run under a watchdog, a hang or an exception on a positive-measure expression is a violation.",
-   note="Trusted: TLC, vh/universe.py. Same bounded universe as C05; positive measure is decided by TLC on a 15x15 lattice (>= 5% of the window), expressions below that are not judged. Whether a call is judgeable is decided by TLC on a lattice over all space variables (enough of the set, and a tenth of it passes the filter). Calls run under a CPU-time watchdog. Known findings: translate_bbox_per_row (three call sites), bool_bd_shared_piece, bool_bd_empty_operand, bool_empty_operand. Universe extended as for C05 (polygons, polyhedra, 3-D / parameter-driven rotations); the number of returned points (n per parameter row) is judged too.",
+   note="Trusted: TLC, vh/universe.py. Same bounded universe as C05; positive measure is decided by TLC on a 15x15 lattice (>= 5% of the window), expressions below that are not judged. Whether a call is judgeable is decided by TLC on a lattice over all space variables (enough of the set, and a tenth of it passes the filter). Calls run under a CPU-time watchdog. Known findings: translate_bbox_per_row (three call sites), bool_bd_shared_piece, bool_bd_empty_operand, bool_empty_operand. Universe extended as for C05 (polygons, polyhedra, 3-D / parameter-driven rotations); the number of returned points (n per parameter row) is judged too. Parameter rows at which a ball's radius function is negative are outside the input universe (not judged).",
    technique="TLC trace validation of recorded samples against the TLA+ denotation; expressions generated by TLC", ref="5 C01"),
  "C10": dict(
    text="Geometry.tla computes the exact measure of every expression whose measure the property fixes as (a + b*pi)/den in integer arithmetic (primitives and boundaries for every parameter row and vertex orientation, verified-disjoint unions, verified-contained cuts, independent products, translations, rotations); TLC compares the recorded volume() per row, the user-set override and the number of points returned by density sampling (exact ceil(d*vol) for non-rejection shapes, at most that for grids).",
@@ -45,7 +45,7 @@ CLAIMED = {
    technique="TLA+ Impl=>Abs model checking of the table construction + exhaustive AST enumeration by TLC + TLC trace validation", ref="5 C02"),
  "C06": dict(
    text="For boundaries of all primitives (slanted, clockwise, parameter-dependent, 1-D..3-D) and of TLC-generated nested unions/cuts/intersections, normal() is recorded at the points of the boundary's own random and grid samplers; TLC checks on the exact denotation that each normal is finite, of unit length and outward (a step along it leaves the set, a step against it enters), independently of how the library computes normals.",
-   note="Trusted: TLC, vh/universe.py. Steps of 8/4/2 fine units (1/256); samples within 16/256 of a second primitive's boundary or at a corner of the primitive itself (ring test) are skipped and counted; normals of translated/rotated boundaries are not part of the API (no normal method). Polygon outlines (grids that hit vertices and prolongations of sides), polyhedra incl. an inside-out and a two-body mesh (3-D flatness test skips edges / vertices), unions / cuts with declared flags.",
+   note="Trusted: TLC, vh/universe.py. Steps of 8/4/2 fine units (1/256); samples within 16/256 of a second primitive's boundary or at a corner of the primitive itself (ring test) are skipped and counted; normals of translated/rotated boundaries are not part of the API (no normal method). Polygon outlines (grids that hit vertices and prolongations of sides), polyhedra incl. an inside-out and a two-body mesh (3-D flatness test skips edges / vertices), unions / cuts with declared flags. Sample sets at parameter rows where a ball's radius is <= 0 are not judged.",
    technique="TLC trace validation of recorded normals against the TLA+ denotation (outward step test)", ref="5 C06"),
  "C11": dict(
    level="model_checking",
@@ -54,7 +54,7 @@ CLAIMED = {
    technique="TLC-evaluated acceptance regions (reference measure from the TLA+ denotation) on recorded sample counts", ref="5 C11"),
  "C03": dict(
    text="Poly.tla defines grad, laplacian, div, jac, rot, partial, normal_derivative, convective, sym_grad and matrix_div by term rewriting on polynomials over named input groups (incl. variable-group order, column offsets, mixed terms); TLC enumerates the programs, the real operators are applied to torch programs built from the same terms, and TLC compares every recorded row exactly, requires batch = single-row results, and zeros (not errors) for programs constant or linear in a listed variable.",
-   note="Trusted: TLC, the program builder of the driver. Universe: polynomial programs of degree <= 3 over x(2), t(1), k(1), y(3) with integer rows (exact in float32/float64); transcendental programs are outside. Batches with two leading axes for the operators that accept them; divergences / Jacobians / matrix divergences over three variable groups.",
+   note="Trusted: TLC, the program builder of the driver. Universe: polynomial programs of degree <= 3 over x(2), t(1), k(1), y(3) with integer rows (exact in float32/float64); transcendental programs are outside. Batches with two leading axes for the operators that accept them; divergences / Jacobians / matrix divergences over three variable groups. Gradient / Laplacian of the convective term (polynomial products).",
    technique="term-rewriting calculus in TLA+, exhaustive case enumeration by TLC, TLC trace validation", ref="5 C03"),
  "C08": dict(
    text="Models.tla states what 'row-wise function of named variables' means on observations (named input row -> output row): equal named content => equal output across variable orders, row orders, batch compositions and batch-axis arrangements; missing variables rejected; derived input/output spaces; Sequential = composition and Parallel = join of the observed parts. TLC model-checks closure of these laws under composition, enumerates 36 model ASTs with all variable permutations, and validates the observations recorded from real (randomly initialised) models.",
@@ -66,7 +66,7 @@ CLAIMED = {
    technique="TLA+ laws on observed integer features + TLC trace validation; configurations enumerated by TLC", ref="5 C09"),
  "C20": dict(
    text="Fourier.tla defines circular shifts and grid refinement as index maps on recorded fields and the laws layer(Shift(u,s)) = Shift(layer(u),s), coarse/fine agreement at shared nodes for band-limited input, and input immutability; MC_Fourier model-checks that the layer's mode padding/truncation bookkeeping is a diagonal frequency map for all spectrum lengths and mode counts. TLC enumerates 1-D and 2-D layer / FNO configurations; real layers run on random fields and every recorded field pair is decided by TLC in fixed point.",
-   note="Trusted: TLC; fixed point 2^-12 with tolerance 6 units; torch.roll is used only to build the shifted INPUT, which TLC re-checks against the recorded input. Bounded: d in {1,2}, N <= 12 per axis, <= 3 channels, modes <= 9, 2-layer FNO with Tanh; batch-norm variant excluded.",
+   note="Trusted: TLC; fixed point 2^-12 with tolerance 6 units; torch.roll is used only to build the shifted INPUT, which TLC re-checks against the recorded input. Bounded: d in {1,2}, N <= 12 per axis (plus grids oversampling the kept modes 8+ times: N = 16, 24, 33; 16x8, 8x24, 16x17), <= 3 channels, modes <= 9, 2/3-layer FNO with Tanh; FNO input spaces of two variables presented in the other order (caller's tensor unchanged, same result); batch-norm variant excluded.",
    technique="TLA+ index-map laws on recorded fixed-point fields (TLC trace validation) + TLC model check of the mode bookkeeping", ref="5 C20"),
  "C04": dict(
    text="Conditions.tla states, in an exact integer universe (affine integer models, integer sample points, affine data functions), what the residual must receive by name row by row (coordinates, model outputs, parameter, data functions at the same rows, left/right values for periodic conditions) and the documented reduction (mean of squared residual summed over components / plain mean). TLC enumerates 624 single-condition scenarios over kinds, residual families, space / model / signature orders, static or not, n; real conditions are built with recording residuals and TLC validates the recorded arguments and the loss (as an exact rational) after every evaluation.",
@@ -74,7 +74,7 @@ CLAIMED = {
    technique="TLA+ evaluation semantics in an exact integer universe + TLC trace validation of exhaustively enumerated scenarios", ref="5 C04"),
  "C14": dict(
    text="MC_Cond model-checks the dictionary handling (copy vs in-place) against isolation for all construct/evaluate interleavings of 3 conditions; TLC generates histories of constructing and evaluating up to three real conditions that share user dictionaries (static and non-static samplers, periodic left/right data) and the trace monitor checks after every step that each condition received its data functions on ITS OWN points, that the user dictionaries still hold the user's function objects, and that static conditions repeat their loss.",
-   note="Trusted: TLC; as C04. Histories of 7 operations over 14 candidate conditions sharing 2 dictionaries, 3 sampler objects (static / non-static / resampling) and a model object, with the train-start event; plus histories of 6 DeepONet conditions sharing 2 networks and 3 function sets under the Solver's iteration numbers (MC_FuncSet model-checks the design; -simulate, 400+250 quick / 5000+4000 thorough). 17 candidate conditions over 3 dictionaries (two hold user-wrapped functions; f(x, t=0) defaults; conditions that sample x only); a data function given as ONE shared table to integro / Deep-Ritz conditions.",
+   note="Trusted: TLC; as C04. Histories of 7 operations over 14 candidate conditions sharing 2 dictionaries, 3 sampler objects (static / non-static / resampling) and a model object, with the train-start event; plus histories of 6 DeepONet conditions sharing 2 networks and 3 function sets under the Solver's iteration numbers (MC_FuncSet model-checks the design; -simulate, 400+250 quick / 5000+4000 thorough). 20 candidate conditions (one built with track_gradients=False) over 3 dictionaries (two hold user-wrapped functions; f(x, t=0) defaults; conditions that sample x only); a data function given as ONE shared table to integro / Deep-Ritz conditions.",
    technique="TLA+ model checking of shared-object interference + TLC-generated histories replayed into the code + stepwise TLC trace validation", ref="5 C14"),
  "C07": dict(
    text="Training.tla is the reference optimisation loop in exact rational arithmetic (weighted sum of condition losses, SGD with momentum on every learnable incl. inverse parameters and ascending adaptive point weights, StepLR with step frequency, validation as a stutter on learnable state). TLC model-checks the loop's invariants, enumerates configurations whose reference trajectory fits the 32-bit budget, and the trace monitor steps the log of real Solver + Trainer runs (which condition with which iteration index; every learnable and the learning rate after each batch and around validation) against the reference, bit for bit.",
